@@ -146,6 +146,28 @@ static void check_wait_result (const char *api, int res, struct op *o, nsync_not
 	if (res != 0 && res != ETIMEDOUT && res != ECANCELED) { vf_violation ("bad-result", "%s returned %d", api, res); }
 }
 
+/* Digest of the note forest (plain fields protected by the notes' mutexes), logged after every note
+   API return: fibers switch only at atomic operations, so the snapshot is a consistent memory state
+   that the Note model must reproduce exactly. */
+static int nnotes_seen;
+static nsync_note all_notes[64];
+static void remember_note (nsync_note n) { int i; if (n == NULL) { return; } for (i = 0; i != nnotes_seen; i++) { if (all_notes[i] == n) { return; } } if (nnotes_seen < 64) { all_notes[nnotes_seen++] = n; } }
+static void forget_note (nsync_note n) { int i; for (i = 0; i != nnotes_seen; i++) { if (all_notes[i] == n) { all_notes[i] = all_notes[--nnotes_seen]; return; } } }
+static void dump_notes (void) {
+	int i;
+	for (i = 0; i != nnotes_seen; i++) {
+		nsync_note n = all_notes[i]; char ch[256]; int cn = 0; int nw = 0; nsync_dll_element_ *p;
+		ch[0] = 0;
+		for (p = nsync_dll_first_ (n->children); p != NULL; p = nsync_dll_next_ (n->children, p)) {
+			cn += snprintf (ch + cn, sizeof (ch) - cn, "%s%s", cn ? "," : "", vf_name_of (p->container) ? vf_name_of (p->container) : "?");
+			if (cn > 200) { break; }
+		}
+		for (p = nsync_dll_first_ (n->waiters); p != NULL; p = nsync_dll_next_ (n->waiters, p)) { nw++; }
+		vf_log_env ("state %s parent=%s children=[%s] waiters=%d disc=%u notified=%u", vf_name_of (n), n->parent ? vf_name_of (n->parent) : "-", ch, nw,
+			    (unsigned) n->disconnecting, (unsigned) *(volatile uint32_t *) &n->notified);
+	}
+}
+
 static struct nsync_waitable_s wtab[16][6]; static struct nsync_waitable_s *wptr[16][6];
 
 static void run_prog (void *arg) {
@@ -210,13 +232,14 @@ static void run_prog (void *arg) {
 			vf_log ("call nsync_note_new %s %s", par ? vf_name_of (par) : "-", dt);
 			vf_api_enter (); notes[o->a] = nsync_note_new (par, t); vf_api_leave ();
 			vf_log ("ret nsync_note_new %s", notes[o->a] ? vf_name_of (notes[o->a]) : "NULL");
+			remember_note (notes[o->a]); dump_notes ();
 			break; }
-		case OP_NOTIFY: if (notes[o->a]) { vf_log ("call nsync_note_notify %s", vf_name_of (notes[o->a])); vf_api_enter (); nsync_note_notify (notes[o->a]); vf_api_leave (); vf_log ("ret nsync_note_notify -"); if (!note_flag (notes[o->a])) { vf_violation ("notify-post", "note not notified after nsync_note_notify returned"); } } break;
-		case OP_IS_NOTIFIED: if (notes[o->a]) { int r; vf_log ("call nsync_note_is_notified %s", vf_name_of (notes[o->a])); vf_api_enter (); r = nsync_note_is_notified (notes[o->a]); vf_api_leave (); vf_log ("ret nsync_note_is_notified %d", r); } break;
-		case OP_NOTE_WAIT: if (notes[o->a]) { int r; nsync_time t = mk_deadline (o, dt, sizeof (dt)); vf_log ("call nsync_note_wait %s %s", vf_name_of (notes[o->a]), dt); vf_api_enter (); r = nsync_note_wait (notes[o->a], t); vf_api_leave (); vf_log ("ret nsync_note_wait %d", r);
+		case OP_NOTIFY: if (notes[o->a]) { vf_log ("call nsync_note_notify %s", vf_name_of (notes[o->a])); vf_api_enter (); nsync_note_notify (notes[o->a]); vf_api_leave (); vf_log ("ret nsync_note_notify -"); dump_notes (); if (!note_flag (notes[o->a])) { vf_violation ("notify-post", "note not notified after nsync_note_notify returned"); } } break;
+		case OP_IS_NOTIFIED: if (notes[o->a]) { int r; vf_log ("call nsync_note_is_notified %s", vf_name_of (notes[o->a])); vf_api_enter (); r = nsync_note_is_notified (notes[o->a]); vf_api_leave (); vf_log ("ret nsync_note_is_notified %d", r); dump_notes (); } break;
+		case OP_NOTE_WAIT: if (notes[o->a]) { int r; nsync_time t = mk_deadline (o, dt, sizeof (dt)); vf_log ("call nsync_note_wait %s %s", vf_name_of (notes[o->a]), dt); vf_api_enter (); r = nsync_note_wait (notes[o->a], t); vf_api_leave (); vf_log ("ret nsync_note_wait %d", r); dump_notes ();
 				if (r && !note_flag (notes[o->a])) { vf_violation ("note-wait", "nsync_note_wait returned true but note is not notified"); }
 				if (!r && dl_ns (o) > vf_now ()) { vf_violation ("early-timeout", "nsync_note_wait timed out early"); } } break;
-		case OP_NOTE_FREE: if (notes[o->a]) { nsync_note n = notes[o->a]; vf_log ("call nsync_note_free %s", vf_name_of (n)); notes[o->a] = NULL; vf_api_enter (); nsync_note_free (n); vf_api_leave (); vf_log ("ret nsync_note_free -"); } break;
+		case OP_NOTE_FREE: if (notes[o->a]) { nsync_note n = notes[o->a]; vf_log ("call nsync_note_free %s", vf_name_of (n)); notes[o->a] = NULL; forget_note (n); vf_api_enter (); nsync_note_free (n); vf_api_leave (); vf_log ("ret nsync_note_free -"); dump_notes (); } break;
 		case OP_NOTE_EXPIRY: if (notes[o->a]) { nsync_time t; vf_log ("call nsync_note_expiry %s", vf_name_of (notes[o->a])); t = nsync_note_expiry (notes[o->a]); vf_log ("ret nsync_note_expiry %lld:%ld", (long long) NSYNC_TIME_SEC (t), (long) NSYNC_TIME_NSEC (t)); } break;
 		case OP_CTR_NEW: vf_log ("call nsync_counter_new %d", o->b); vf_api_enter (); ctrs[o->a] = nsync_counter_new ((uint32_t) o->b); vf_api_leave (); vf_log ("ret nsync_counter_new %s", ctrs[o->a] ? vf_name_of (ctrs[o->a]) : "NULL"); break;
 		case OP_CTR_ADD: if (ctrs[o->a]) { uint32_t r; vf_log ("call nsync_counter_add %s %d", vf_name_of (ctrs[o->a]), o->b); vf_api_enter (); r = nsync_counter_add (ctrs[o->a], o->b); vf_api_leave (); vf_log ("ret nsync_counter_add %u", r); } break;
